@@ -41,6 +41,19 @@ CLAIMS['C19'] = dict(
          'read-only in the .pxd).',
     technique='literal-table evaluation (constant folding of constructor calls) + interpretation of index key expressions + hash/eq field-set comparison')
 
+CLAIMS['C06'] = dict(
+    text='Every add_*/update_*/get_* of the 13 families (14 getters) and the 11 install routes is abstractly traced (dict shapes, '
+         'path templates, file events -- an interpreter over ast, nothing executed) and the structural necessary conditions of '
+         'the statement are decided on all of them: the file written through add_X and update_X is the file get_X reads '
+         '(template and argument roles) and families use distinct templates; writer and reader index the content with the '
+         'same key expression and the reader reads only record keys the writer stores; the nesting built by add_X is the '
+         'nesting update_X unpacks; repository_path is forwarded on every call edge that can carry it and every path written or '
+         'created is rooted at it; multi-key files are read-modify-write from the same path; getters convert a missing file or '
+         'key into RuntimeError; nothing can raise between truncating a file and dumping it and validation precedes the store '
+         'of a key; encode_transition lower-cases str() of both levels. Does not decide bit-exact float64 round trips through '
+         'JSON, file-system interleavings or collisions of exotic level strings.',
+    technique='abstract interpretation over ast (dict-shape / path-template / file-event tracer), writer-reader agreement, call-edge forwarding, exception-handler discipline')
+
 # ---- everything not claimed above is pending / not applicable
 _pending = 'check not built yet in this session (see DESIGN.md build order); not claimed until it is'
 for _p in ['C%02d' % i for i in range(1, 21)]:
